@@ -227,6 +227,67 @@ fn stacked(lines: &[String]) -> bool {
     lines.iter().any(|l| !l.is_empty() && l.chars().all(|c| c == '/'))
 }
 
+/// the (colspan, token) layout of a case's table and whether a cell holds a nested table: from the
+/// generator's metadata, or - for corpus cases - read off the DOM
+fn table_layout(c: &Case, r: &RunResult) -> Option<(Vec<Vec<(usize, String)>>, bool)> {
+    if c.meta.role() != "corpus" {
+        return Some((c.meta.strs().iter().map(|row| row.split(',').map(|x| { let mut p = x.splitn(2, ':'); (p.next().unwrap().parse().unwrap(), p.next().unwrap_or("").to_string()) }).collect()).collect(), c.meta.nums().first().copied().unwrap_or(0) == 1));
+    }
+    let dom = dom_of(r);
+    let mut table: Option<&DNode> = None;
+    walk(&dom, &mut |n, _| {
+        if table.is_none() && n.is("table") {
+            table = Some(n);
+        }
+    });
+    let mut rows: Vec<Vec<(usize, String)>> = Vec::new();
+    let mut nested = false;
+    if let Some(t) = table {
+        fn collect<'a>(n: &'a DNode, rows: &mut Vec<&'a DNode>) {
+            for k in n.kids() {
+                if k.is("tr") {
+                    rows.push(k);
+                } else if k.is("thead") || k.is("tbody") {
+                    collect(k, rows);
+                }
+            }
+        }
+        let mut trs = Vec::new();
+        collect(t, &mut trs);
+        for tr in trs {
+            let mut row = Vec::new();
+            for cell in tr.kids().iter().filter(|x| x.is("td") || x.is("th")) {
+                let span = cell.attr("colspan").and_then(|x| x.parse::<usize>().ok()).unwrap_or(1).max(1);
+                let txt: String = visible_chars(std::slice::from_ref(cell)).into_iter().collect();
+                if has_element(cell.kids(), &["table"]) {
+                    nested = true;
+                }
+                row.push((span, txt));
+            }
+            rows.push(row);
+        }
+    }
+    if rows.is_empty() || rows[0].is_empty() {
+        return None;
+    }
+    Some((rows, nested))
+}
+/// the recorded class: a colspan over a column that is empty in all its single-span cells
+fn zero_col_under_span(layout: &[Vec<(usize, String)>]) -> bool {
+    let ncols: usize = layout[0].iter().map(|x| x.0).sum();
+    let mut col_has_single = vec![false; ncols];
+    for row in layout {
+        let mut cidx = 0;
+        for (span, tok) in row {
+            if *span == 1 && !tok.is_empty() && cidx < ncols {
+                col_has_single[cidx] = true;
+            }
+            cidx += span;
+        }
+    }
+    let has_span = layout.iter().any(|row| row.iter().any(|x| x.0 > 1));
+    has_span && col_has_single.iter().any(|b| !*b)
+}
 fn check_c05(cases: &[Case], results: &[Option<RunResult>]) -> Vec<Violation> {
     let mut v = Vec::new();
     for (i, c) in cases.iter().enumerate() {
@@ -246,48 +307,9 @@ fn check_c05(cases: &[Case], results: &[Option<RunResult>]) -> Vec<Violation> {
         }
         let g = grid(&lines);
         let is_stacked = stacked(&lines);
-        // the (colspan, token) layout: from the generator, or - for corpus cases - read off the DOM
-        let (layout, nested): (Vec<Vec<(usize, String)>>, bool) = if c.meta.role() == "table" {
-            (c.meta.strs().iter().map(|row| row.split(',').map(|x| { let mut p = x.splitn(2, ':'); (p.next().unwrap().parse().unwrap(), p.next().unwrap_or("").to_string()) }).collect()).collect(), c.meta.nums()[0] == 1)
-        } else {
-            let dom = dom_of(r);
-            let mut table: Option<&DNode> = None;
-            walk(&dom, &mut |n, _| {
-                if table.is_none() && n.is("table") {
-                    table = Some(n);
-                }
-            });
-            let mut rows: Vec<Vec<(usize, String)>> = Vec::new();
-            let mut nested = false;
-            if let Some(t) = table {
-                fn collect<'a>(n: &'a DNode, rows: &mut Vec<&'a DNode>) {
-                    for k in n.kids() {
-                        if k.is("tr") {
-                            rows.push(k);
-                        } else if k.is("thead") || k.is("tbody") {
-                            collect(k, rows);
-                        }
-                    }
-                }
-                let mut trs = Vec::new();
-                collect(t, &mut trs);
-                for tr in trs {
-                    let mut row = Vec::new();
-                    for cell in tr.kids().iter().filter(|x| x.is("td") || x.is("th")) {
-                        let span = cell.attr("colspan").and_then(|x| x.parse::<usize>().ok()).unwrap_or(1).max(1);
-                        let txt: String = visible_chars(std::slice::from_ref(cell)).into_iter().collect();
-                        if has_element(cell.kids(), &["table"]) {
-                            nested = true;
-                        }
-                        row.push((span, txt));
-                    }
-                    rows.push(row);
-                }
-            }
-            if rows.is_empty() || rows[0].is_empty() {
-                continue;
-            }
-            (rows, nested)
+        let (layout, nested) = match table_layout(c, r) {
+            Some(x) => x,
+            None => continue,
         };
         let ncols: usize = layout[0].iter().map(|x| x.0).sum();
         // a colspan over a column that is empty in all its single-span cells (known A-17)
@@ -400,12 +422,18 @@ fn check_c06(cases: &[Case], results: &[Option<RunResult>]) -> Vec<Violation> {
             }
             continue;
         }
-        if c.meta.role() == "table_empty" && c.meta.nums()[0] == 0 {
+        if (c.meta.role() == "table_empty" && c.meta.nums()[0] == 0) || c.meta.role() == "corpus" {
             // single-span cells of one source column start at the same x in every row in which
             // they have text (side-by-side layout only)
             if let Some(lines) = results[i].as_ref().and_then(|r| out_lines(&r.outcome)) {
                 if !lines.is_empty() && !stacked(&lines) && lines[0].chars().all(is_rule_glyph) && lines.iter().any(|l| l.contains('│')) {
-                    let layout: Vec<Vec<(usize, String)>> = c.meta.strs().iter().map(|row| row.split(',').map(|x| { let mut p = x.splitn(2, ':'); (p.next().unwrap().parse().unwrap(), p.next().unwrap_or("").to_string()) }).collect()).collect();
+                    let layout = match results[i].as_ref().and_then(|r| table_layout(c, r)) {
+                        Some((l, false)) => l,
+                        _ => continue,
+                    };
+                    // (the recorded class of C05 shows here too: a column that got width 0 under a
+                    // colspan makes that row one separator wider)
+                    let known6 = if zero_col_under_span(&layout) { Some("zero_width_column_under_colspan") } else { None };
                     let mut col_x: HashMap<usize, (usize, String)> = HashMap::new();
                     'rows: for row in &layout {
                         let mut cidx = 0;
@@ -416,7 +444,7 @@ fn check_c06(cases: &[Case], results: &[Option<RunResult>]) -> Vec<Violation> {
                                         let x0 = str_width(&l[..bp]);
                                         match col_x.get(&cidx) {
                                             Some((x, t0)) if *x != x0 => {
-                                                v.push(viol(i, "cells of one column do not start at the same position", format!("column {}: {} at {}, {} at {}\n{}", cidx, t0, x, tok, x0, lines.join("\n")), None));
+                                                v.push(viol(i, "cells of one column do not start at the same position", format!("column {}: {} at {}, {} at {}\n{}", cidx, t0, x, tok, x0, lines.join("\n")), known6));
                                                 break 'rows;
                                             }
                                             Some(_) => {}
